@@ -1,13 +1,13 @@
 (* C03 — inbound decoding is faithful, chunking-invariant and robust to hostile bytes.
-   Only statements; proofs live in CodecProofs/{FramingP,DecPrim,DecNoPanic,DecReasonCodes,DecFaithful*}.v.
+   Only statements; proofs live in CodecProofs/{FramingP,DecPrim,DecNoPanic,DecReasonCodes,DecFaithful*,DecNoNul}.v.
    Vocabulary (Codec/Framing.v): [decode_bytes v max d data] = Decoder::decode_bytes (new state, packets
    of this call, verdict); [feed2 .. d a b] = feed a, then b unless a failed; [feed .. d chunks] the same
    for a list of reads; [result_equiv] = same packets, same verdict, same decoder state (after an error:
    both terminal); [wf] = decoder states reachable through the API. *)
 From GM Require Import Base.Prelude Base.Outcome Codec.Packets Codec.Prim Codec.ReasonCodes
-  Codec.ImplDecode Codec.Framing Codec.SpecEncodeS2C.
+  Codec.ImplDecode Codec.Framing Codec.SpecEncodeS2C Codec.StringsNoNul.
 From GM Require Import CodecProofs.FramingP CodecProofs.DecNoPanic CodecProofs.DecReasonCodes CodecProofs.DecFaithfulAck
-  CodecProofs.DecFaithfulDisc CodecProofs.DecFaithfulConn CodecProofs.DecFaithfulAll.
+  CodecProofs.DecFaithfulDisc CodecProofs.DecFaithfulConn CodecProofs.DecFaithfulAll CodecProofs.DecNoNul.
 Open Scope N_scope.
 
 (* ---- chunking invariance: for ANY body decoder, hence for the implementation's ---- *)
@@ -158,6 +158,28 @@ Theorem C03_faithful_stream : forall v p order compact bs rest max_size,
   (let '(d2, ps, r) := decode_bytes v max_size decoder_init rest in (d2, p :: ps, r)).
 Proof. exact faithful_stream. Qed.
 
+(* ---- MQTT-1.5.4-2: U+0000 in a UTF-8 string is malformed (the former defect D27, fixed in /repo by
+   a42e3b8; corpus/C03/d27_nul_in_string.txt and corpus/engine/d27_assigned_client_id_nul.script are its
+   regression cases).  No string field (Codec/StringsNoNul.v: topic, response topic, content type, reason
+   string, assigned client identifier, response information, server reference, authentication method, user
+   property names and values) of ANY packet the decoder returns — for any first byte and any body bytes,
+   and through the framing decoder for any byte stream in any chunking — contains a zero byte. *)
+Theorem C03_strings_no_nul : forall v first_byte body p,
+  impl_decode_packet v first_byte body = Ok p -> packet_strings_no_nul p = true.
+Proof. exact strings_no_nul. Qed.
+Theorem C03_strings_no_nul_stream : forall v max_size chunks d i,
+  let '(d', ps, r, j) := decode_chunks v max_size d chunks i in
+  Forall (fun p => packet_strings_no_nul p = true) ps.
+Proof. exact strings_no_nul_stream. Qed.
+(* the three helpers every string of a packet goes through *)
+Theorem C03_strings_no_nul_helpers :
+  (forall b s rest, decode_length_prefixed_string b = Ok (s, rest) -> no_null s = true) /\
+  (forall b s rest, decode_optional_length_prefixed_string b None = Ok (Some s, rest) -> no_null s = true) /\
+  (forall b props name value l rest,
+     decode_user_property b props = Ok (Some (l ++ [{| up_name := name; up_value := value |}]), rest) ->
+     no_null name = true /\ no_null value = true).
+Proof. exact strings_no_nul_helpers. Qed.
+
 (* ---- non-vacuity ---- *)
 (* a PUBACK (short form) and a PINGRESP, then the first byte of another packet, fed in three reads
    that split the first fixed header: both packets come out, the decoder waits for more *)
@@ -188,3 +210,15 @@ Example C03_example_unsuback_143 :
   decode_chunks V5 0 decoder_init [[176]; [4]; [0]; [1]; [0]; [143]] 0 =
   (decoder_init, [Unsuback {| ua_pid := 1; ua_reason := None; ua_up := None; ua_codes := [143] |}], Ok tt, 6).
 Proof. vm_compute. reflexivity. Qed.
+
+(* regression of D27: a CONNACK whose Assigned Client Identifier is "a", U+0000, "b" and a PUBLISH whose
+   topic is "a", U+0000 are decoding failures; the same packets without the zero byte decode, and the
+   premise of C03_strings_no_nul is met by a packet with a non-empty string *)
+Example C03_example_nul_rejected :
+  decode_bytes V5 0 decoder_init [32; 9; 0; 0; 6; 18; 0; 3; 97; 0; 98] =
+    ({| d_state := TerminalError; d_scratch := []; d_first_byte := Some 32; d_remaining_length := Some 9 |},
+     [], Err EDecodingFailure) /\
+  impl_decode_packet V5 48 [0; 2; 97; 0; 0] = Err EDecodingFailure /\
+  impl_decode_packet V311 48 [0; 2; 97; 0] = Err EDecodingFailure /\
+  (exists c, impl_decode_packet V5 32 [0; 0; 6; 18; 0; 3; 97; 99; 98] = Ok (Connack c) /\ ca_assigned_id c = Some [97; 99; 98]).
+Proof. vm_compute. repeat split. eexists. split; reflexivity. Qed.
